@@ -8,6 +8,7 @@ namespace Gedcom.Q
 /-- The Go type of a value that can flow through a query. -/
 inductive Ty where
   | str | int | bool
+  | float                            -- float64
   | map                              -- map[string]interface{}
   | doc                              -- *gedcom.Document
   | nodeI                            -- gedcom.Node (interface)
